@@ -16,6 +16,7 @@ import AbraModel.Drv.Heap
 import AbraModel.Drv.PatMatrix
 import AbraModel.Drv.Sem
 import AbraModel.Drv.Compile
+import AbraModel.Drv.TryLower
 import AbraModel.Drv.Arr
 import AbraModel.Drv.F64
 import AbraModel.Drv.Opt
@@ -57,6 +58,8 @@ def dispatch (line : String) : String :=
   | "pc" :: rest => handlePatCompile rest
   | "sem" :: rest => handleSem rest
   | "cgen" :: rest => handleCgen rest
+  | "prelude" :: rest => handlePrelude rest
+  | "trylower" :: rest => handleTryLower rest
   | "arr" :: rest => handleArr rest
   | "f64" :: rest => handleF64 rest
   | "opt" :: rest => handleOpt rest
